@@ -22,6 +22,9 @@ import (
 // never lets the bubble reach quiescence, so the harness turns each iteration
 // into a short virtual-time sleep. No client lock is held at that point.
 //
+// A third loop: the checkpointed filter-header loop of cfHandler re-issues its
+// queries without blocking while they fail at once.
+//
 // Only a loop that comes round again at the same virtual instant is slowed
 // down: the first few iterations per instant run undisturbed.
 func init() {
@@ -31,7 +34,14 @@ func init() {
 	neutrino.VerifYield = func(point string) {
 		if strings.HasPrefix(point, "sched:") {
 			schedYield(point)
-			return
+			// The checkpointed filter-header loop comes round without
+			// blocking while its queries fail at once (work manager
+			// already stopped, block manager not yet: the window inside
+			// Stop). Its yield point holds no client lock, so that loop
+			// is paced like the other two.
+			if !strings.HasPrefix(point, "sched:cfhandler:") {
+				return
+			}
 		}
 		now := time.Now()
 		yieldMu.Lock()
